@@ -185,7 +185,9 @@ def get_ifm_area_required(
 ) -> Tuple[int, int]:
     upscale = to_upscale(resampling_mode)
     nearest = is_nearest(resampling_mode)
-    h1 = _required_size(ofm_shape.height, kernel.stride.y, kernel.area_height(), upscale, nearest)
+    # The IFM box of a stripe spans n * stride rows plus the total vertical padding, which is up to stride - 1 rows more
+    # than (n - 1) * stride + kernel when the IFM height is not a multiple of the stride
+    h1 = _required_size(ofm_shape.height, kernel.stride.y, kernel.area_height() + kernel.stride.y - 1, upscale, nearest)
     w1 = _required_size(ofm_shape.width, kernel.stride.x, kernel.area_width(), upscale, nearest)
     return (w1, h1)
 
